@@ -198,6 +198,13 @@ def pki() -> PKI:
         p.hand("AT_app_mid", tbs_cert(None, app=[PSID_CAM, PSID_GEN, PSID_DENM]), "AA_n", "AA_n")
         # short-lived genuine ticket for the validity-boundary lattice: valid [T0 + 100 s, T0 + 110 s]
         p.issue("AT_short", tbs_cert(None, app=gen, start=its_s(T0) + 100, dur=("seconds", 10)), "AA")
+        # signature verifies ONLY under the certificate's own key, but the issuer FIELD names a trusted certificate
+        # (root digest / AA digest; CA and ticket certificates) - plus tickets issued by those rogue CAs
+        p.hand("AA_selfR", tbs_cert("aa", issue=[perm(explicit(gen), 2)]), "R", None)
+        p.hand("AA_selfAA", tbs_cert("sub", app=[PSID_CAM], issue=[perm(explicit(gen), 1)]), "AA", None)
+        p.hand("AT_selfR", tbs_cert(None, app=gen), "R", None)
+        p.hand("AT_u_selfR", tbs_cert(None, app=gen), "AA_selfR", "AA_selfR")
+        p.hand("AT_u_selfAA", tbs_cert(None, app=gen), "AA_selfAA", "AA_selfAA")
     finally:
         ENV.urandom_state = prev
     _PKI = p
